@@ -56,7 +56,7 @@ CLAIMED = {
             'Trusted: clang AST; roles derived from kfold_group_train_test_split control dependence; fit entry points PLS/MLR/EPLS/LDA take (x, y) first. A worker or split routine the rules cannot bind is ANALYSIS-BROKEN.',
             'DESIGN.md 2/E5-E6, 3/C05'),
     'C03': ('layout', 'other', 'index-role typing (a units-of-measure style dataflow over extents q, A, q*A and the indices ranging over them) checked at every subscript, column composition, column decomposition and column append; sibling cross-check of the fit/apply preprocessing branches; comparison-idiom rule on stored scalings; zeroed-output typestate for accumulating kernels',
-            'Decides the column-layout clause (matrices with q*A columns are produced and consumed LV-major, column c paired with response c mod q) and structural necessary conditions of the re-projection / back-transform clauses: the score predictor preprocesses with the model fields the fit filled; the fit and apply branches of MatrixPreprocess store under the same guards and tolerances; stored scalings (which may be negative) are only tested with the two-sided ApproxEq idiom, so the y back-transform is not skipped for some columns; every product kernel called in pls.c receives an output that was zeroed since it was last written; no absolute tolerance is applied to a data-scaled quantity (t't, norms) in the PLS fitting / prediction code, so small-scale data are deflated like any other. Orthogonality, the deflation arithmetic and the values of the fitted responses are NOT decided.',
+            'Decides the column-layout clause (matrices with q*A columns are produced and consumed LV-major, column c paired with response c mod q) and structural necessary conditions of the re-projection / back-transform clauses: the score predictor preprocesses with the model fields the fit filled; the fit and apply branches of MatrixPreprocess store under the same guards and tolerances; stored scalings (which may be negative) are only tested with the two-sided ApproxEq idiom, so the y back-transform is not skipped for some columns; every product kernel called in pls.c receives an output that was zeroed since it was last written; no absolute tolerance is applied to a data-scaled quantity (the squared score norm, vector norms) in the PLS fitting / prediction code, so small-scale data are deflated like any other. Orthogonality, the deflation arithmetic and the values of the fitted responses are NOT decided.',
             'Trusted: clang AST; the role seeds (struct fields and public parameter positions, DESIGN.md Appendix A). A subscript whose roles cannot be inferred is counted as undecided, never as a violation.',
             'DESIGN.md 2/E5, 3/C03'),
     'C18': ('loopterm', 'other', 'termination certificates: per-loop ranking argument over the structured AST (constant-step counter on every path, loop-invariant bound with callee mod summaries, capped exits incl. callee "returns non-zero when a>b" summaries) for all loops reachable in the call graph from the fitting roots',
